@@ -24,6 +24,19 @@ type Found struct {
 	Hist     []hist.Event    `json:"hist,omitempty"`
 	Case     json.RawMessage `json:"case,omitempty"` // non-history checks
 	Core     string          `json:"core,omitempty"`
+	// Instance identifies the exact violating history (oracle kind, signature,
+	// configuration and every event) for checks that keep an instance baseline
+	// (known_instances/<ID>.txt). KnownInstance: the history is listed there;
+	// NewInstance: a baseline exists and does not list it; BaseCore: the core
+	// of the new instance without the "not in baseline" mark.
+	Instance      string `json:"instance,omitempty"`
+	KnownInstance bool   `json:"known_instance,omitempty"`
+	NewInstance   bool   `json:"new_instance,omitempty"`
+	BaseCore      string `json:"base_core,omitempty"`
+	Original      string `json:"original_history,omitempty"`
+	// Flaky: a new instance that did not recur on every re-execution (the code
+	// under test iterates Go maps).
+	Flaky bool `json:"flaky,omitempty"`
 }
 
 // Result is what one worker (or a merged run) reports.
@@ -41,6 +54,8 @@ type Result struct {
 	Completed  []string `json:"completed,omitempty"`
 	Notes      []string `json:"notes,omitempty"`
 	HarnessErr []string `json:"harness_err,omitempty"`
+	// Instances (recording mode only): every violating instance -> its core.
+	Instances map[string]string `json:"instances,omitempty"`
 }
 
 // NewResult allocates maps.
@@ -127,6 +142,12 @@ func (r *Result) Merge(o *Result) {
 	}
 	for _, f := range o.Found {
 		r.AddFound(f)
+	}
+	if len(o.Instances) > 0 && r.Instances == nil {
+		r.Instances = map[string]string{}
+	}
+	for k, v := range o.Instances {
+		r.Instances[k] = v
 	}
 	r.Incomplete = append(r.Incomplete, o.Incomplete...)
 	r.Completed = append(r.Completed, o.Completed...)
